@@ -8,11 +8,11 @@
 -/
 import Simpleline.Lemmas.InputOps
 
-namespace Simpleline
+namespace Simpleline.Input
 
 /-! ### `readLines` -/
 
-def Ev.isRead : Ev → Bool
+def _root_.Simpleline.Ev.isRead : Ev → Bool
   | .read _ => true
   | _ => false
 
@@ -24,7 +24,7 @@ theorem readLines_cons (e : Ev) (log : List Ev) (h : e.isRead = false) : readLin
 
 /-! ### the frame of a step -/
 
-def Instr.isInputOp : Instr → Bool
+def _root_.Simpleline.Instr.isInputOp : Instr → Bool
   | .getInput2 .. | .blockingInput .. | .inputReceived _ | .inputReady .. => true
   | _ => false
 
@@ -96,7 +96,7 @@ theorem InpFrame_take {c c1 : Cfg} (hs : Same c c1) (f : Sig → List Instr) :
 
 theorem Same_refl (c : Cfg) : Same c c := ⟨rfl, rfl, rfl, rfl, rfl, fun _ => rfl, rfl, rfl, rfl⟩
 
-macro "frame_leaf" hs:ident : tactic => `(tactic| first
+macro "inp_frame_leaf" hs:ident : tactic => `(tactic| first
     | exact InpFrame_raise _ $hs
     | (apply InpFrame_of_same; simpa [Same, push, Cfg.write] using $hs))
 
@@ -104,20 +104,20 @@ theorem doAct_frame (c c1 : Cfg) (a : Act) (hs : Same c c1) : InpFrame c (final 
   unfold doAct
   split <;> (try dsimp only) <;>
     first
-    | frame_leaf hs
-    | (split <;> frame_leaf hs)
+    | inp_frame_leaf hs
+    | (split <;> inp_frame_leaf hs)
 
-macro "same_tac" : tactic => `(tactic|
+macro "inp_same_tac" : tactic => `(tactic|
   (simp [Same, push, Cfg.write, setScr_getElem?, Ev.isRead] <;> (try (intro j; split <;> rfl))))
 
-macro "frame_step" : tactic => `(tactic| first
-    | (apply InpFrame_of_same; same_tac; done)
-    | (apply InpFrame_raise; same_tac; done)
-    | (apply InpFrame_push; apply InpFrame_emit <;> same_tac; done)
-    | (apply InpFrame_emit <;> same_tac; done)
-    | (apply InpFrame_take (f := fun s => [Instr.processSignal s]); same_tac; done)
-    | (apply InpFrame_take (f := fun s => [Instr.processSignal s, _]); same_tac; done)
-    | (apply doAct_frame; same_tac; done))
+macro "inp_frame_step" : tactic => `(tactic| first
+    | (apply InpFrame_of_same; inp_same_tac; done)
+    | (apply InpFrame_raise; inp_same_tac; done)
+    | (apply InpFrame_push; apply InpFrame_emit <;> inp_same_tac; done)
+    | (apply InpFrame_emit <;> inp_same_tac; done)
+    | (apply InpFrame_take (f := fun s => [Instr.processSignal s]); inp_same_tac; done)
+    | (apply InpFrame_take (f := fun s => [Instr.processSignal s, _]); inp_same_tac; done)
+    | (apply doAct_frame; inp_same_tac; done))
 
 theorem step_frame (P : Prog) (c : Cfg) (hb : ∀ ins rest, c.code = ins :: rest → ins.isInputOp = false) :
     InpFrame c (final (step P c)) := by
@@ -130,11 +130,11 @@ theorem step_frame (P : Prog) (c : Cfg) (hb : ∀ ins rest, c.code = ins :: rest
     all_goals try (simp [Instr.isInputOp] at hb; done)
     all_goals dsimp only
     all_goals try simp only [final_ok]
-    all_goals try (frame_step; done)
-    all_goals try (split <;> try (frame_step; done))
-    all_goals try (split <;> try (frame_step; done))
-    all_goals try (split <;> try (frame_step; done))
-    all_goals try (split <;> try (frame_step; done))
+    all_goals try (inp_frame_step; done)
+    all_goals try (split <;> try (inp_frame_step; done))
+    all_goals try (split <;> try (inp_frame_step; done))
+    all_goals try (split <;> try (inp_frame_step; done))
+    all_goals try (split <;> try (inp_frame_step; done))
 
 /-! ### the four input operations, and the transition relation on the pipeline state -/
 
@@ -218,7 +218,7 @@ theorem step_inpTrans (P : Prog) (c : Cfg) : InpTrans c (final (step P c)) := by
       · rw [step_getInput2_none P c scr args rest hc hp]
         apply InpTrans.frame
         apply InpFrame_of_same
-        same_tac
+        inp_same_tac
     · rename_i scr cont
       rw [step_blockingInput P c scr cont rest hc]
       exact .blockingReq scr _ _ (Requested_congr (requested_of_newIH _ _ _ _ _ _) rfl rfl rfl rfl rfl rfl rfl rfl rfl)
@@ -227,7 +227,7 @@ theorem step_inpTrans (P : Prog) (c : Cfg) : InpTrans c (final (step P c)) := by
       cases hst : c.A.inputStack.getLast? with
       | none =>
         rw [step_inputReceived_empty P c s rest hc (List.getLast?_eq_none_iff.mp hst)]
-        exact .frame (InpFrame_raise _ (by same_tac))
+        exact .frame (InpFrame_raise _ (by inp_same_tac))
       | some r =>
         have hne : c.A.inputStack ≠ [] := by intro h; simp [h] at hst
         obtain ⟨rs, hst'⟩ := List.getLast?_eq_some_iff.mp hst
@@ -244,6 +244,6 @@ theorem step_inpTrans (P : Prog) (c : Cfg) : InpTrans c (final (step P c)) := by
         · exact .ready n s rest _ hc h1 (Or.inl ⟨hok, rfl⟩) rfl rfl rfl
         · exact .ready n s rest _ hc h1 (Or.inr ⟨hok, rfl⟩) rfl rfl rfl
       · simp only [ne_eq, h1, not_false_eq_true, if_true, final_ok]
-        exact .frame (InpFrame_of_same (by same_tac))
+        exact .frame (InpFrame_of_same (by inp_same_tac))
 
-end Simpleline
+end Simpleline.Input
